@@ -174,10 +174,20 @@ def r1_chip_info(program, folder, rep):
         raise AnalysisError("get_chip_info: the payload is not decoded by "
                             "one struct.unpack_from('<18BHI', ...); another "
                             "(possibly equivalent) format is not analysed")
+    st_ = up[0]
+    while st_ is not None and not isinstance(st_, ast.stmt):
+        st_ = getattr(st_, "_parent", None)
+    if isinstance(st_, ast.Assign) and any(
+            isinstance(x, ast.Starred) for t_ in st_.targets
+            for x in ast.walk(t_)):
+        raise AnalysisError("get_chip_info: the payload items are bound "
+                            "through a starred target; which item goes where "
+                            "is not read off that form")
     okp = len(up) == 1 and folder.eval(up[0].args[0], {}, mod) == "<18BHI" \
         and T.term(up[0].args[1]) == ("attr", INFO, "data")
     DATA = T.term(up[0]) if okp else None
     okc = okl = oki = False
+    unread_p = []       # parts whose form is not one these rules read
     if okp:
         NUM = kw.get("num_cores")
         states = ("listcomp", ("call", ("attr", ("global", "consts"),
@@ -204,7 +214,12 @@ def r1_chip_info(program, folder, rep):
                 plain(built_[0][1]) == ("call", ("attr", ("global", "consts"),
                                                  "AppState"),
                                         (("elem", FIRST18),), ())
+        if not okc and not (cs_raw[0] == "item" and cs[2][0] == "slice"):
+            unread_p.append("core states")
         le_ = kw.get("local_ethernet_chip", ("?",))
+        if not (le_[0] == "tuple" and len(le_) == 3 and
+                all(bits(e) is not None for e in le_[1:])):
+            unread_p.append("local Ethernet chip")
         if le_[0] == "tuple" and len(le_) == 3:
             src = unparse(reify(plain(("comp", DATA, 18))))
             hi_, lo_ = [bits(e) for e in le_[1:]]
@@ -216,6 +231,8 @@ def r1_chip_info(program, folder, rep):
         m = match(("call", ("attr", ("const", "."), "join"),
                    (("genexp", ("call", ("global", "str"), (V("b"),), ()),
                      ((V("it"), ()),)),), ()), ip)
+        if m is None:
+            unread_p.append("IP address")
         if m is not None:
             try:
                 shifts = list(folder.eval(reify(m["it"]), {}, mod))
@@ -225,6 +242,15 @@ def r1_chip_info(program, folder, rep):
             oki = shifts == [0, 8, 16, 24] and all(
                 bits(_subst(m["b"], T._elem(m["it"]), ("const", s_))) ==
                 (src, s_, 8, 0) for s_ in shifts)
+    if unread_p and okp:
+        # the parts that are in a form read are still judged
+        okc = okc or "core states" in unread_p
+        okl = okl or "local Ethernet chip" in unread_p
+        oki = oki or "IP address" in unread_p
+        rep.undecided("C14-R1", "get_chip_info: %s computed from the payload "
+                      "in a form these rules do not read (not slices / "
+                      "shifts and masks / a join over byte shifts)" %
+                      ", ".join(unread_p))
     rep.check(okp and okc and okl and oki, "C14-R1", inst,
               "payload '<18BHI': 18 core states, local Ethernet chip as "
               "(high byte, low byte) = (x, y), IP address low byte first",
